@@ -143,3 +143,83 @@ def _par_eval(h):
     fp2.default = 0.7
     out = h.call(par.par_evaluate, fp2 + 0)
     h.ensure("documented-default-used-only-when-set", out.returned and abs(float(out.value) - 0.7) < 1e-12)
+
+
+# ---------------------------------------------------------------------------------------------
+# BaseEngine._run: the segment loop against ABSTRACT program segments (modular: only can_follow / bind_params / lock /
+# reg_refs of a Program are used).  Measured values are handed from one segment to the next MODE BY MODE (keyed by the
+# subsystem index, whatever was deleted or created in between), before the segment is run; nothing is handed to a mode
+# the successor does not have; the predecessor's references are left alone; every segment is bound, locked, run once and
+# appended in order.  Register patterns fixed (shape-bounded), all values opaque.
+# ---------------------------------------------------------------------------------------------
+ENGINE = "strawberryfields.engine"
+
+
+class SegRef:
+    def __init__(self, ind, val=None):
+        self.ind, self.val = ind, val
+
+
+class Segment:
+    """abstract program segment"""
+    def __init__(self, name, refs, log):
+        self.name, self.reg_refs, self.log = name, {r.ind: r for r in refs}, log
+        self.init_num_subsystems = len(refs)
+        self.run_options, self.backend_options = {}, {}
+
+    @property
+    def register(self):
+        return tuple(r for r in self.reg_refs.values() if getattr(r, "active", True))
+
+    def can_follow(self, prev):
+        self.log.append(("can_follow", self.name, prev.name))
+        return True
+
+    def bind_params(self, args):
+        self.log.append(("bind", self.name))
+
+    def lock(self):
+        self.log.append(("lock", self.name))
+
+
+@proof("C09", ENGINE + ":BaseEngine._run", name="BaseEngine._run/hand-over-of-measured-values-by-mode")
+def _engine_handover(h):
+    import types
+    eng_mod = h.module(ENGINE)
+    log = []
+    v1, v2, v3 = ("OUTCOME", 1), ("OUTCOME", 2), ("OUTCOME", 3)
+    # previous segment: modes 0..3 ever existed; mode 0 was deleted (inactive, but its reference is still there and may even
+    # hold an old value), modes 1 and 2 were measured, mode 3 was not
+    old0 = SegRef(0, ("OLD", 0)); old0.active = False
+    prev = Segment("prev", [old0, SegRef(1, v1), SegRef(2, v2), SegRef(3, None)], log)
+    # successor: modes 1, 2, 3 alive, mode 4 created; second successor: mode 1 deleted as well, mode 3 measured by segment A
+    a_refs = [SegRef(1), SegRef(2), SegRef(3), SegRef(4)]
+    A = Segment("A", a_refs, log)
+    B = Segment("B", [SegRef(2), SegRef(3), SegRef(4), SegRef(5)], log)
+    seen = {}
+
+    def run_program(self, p, **kw):
+        seen[p.name] = {k: r.val for k, r in p.reg_refs.items()}
+        log.append(("run", p.name))
+        if p.name == "A":
+            p.reg_refs[3].val = v3            # segment A measures mode 3
+        return None, "SAMPLES-" + p.name, {"dict": p.name}
+    backend = types.SimpleNamespace(compiler=None, state=lambda **k: "STATE")
+    eng = object.__new__(eng_mod.LocalEngine)
+    for k_, v_ in dict(backend=backend, run_progs=[prev], samples=None, samples_dict=None, backend_name="stub", backend_options={}).items():
+        setattr(eng, k_, v_)
+    with h.stubbed(eng_mod.LocalEngine, "_run_program", run_program), h.stubbed(eng_mod.LocalEngine, "_init_backend", lambda self, n: log.append(("init", n))):
+        out = h.call(eng_mod.BaseEngine._run, eng, [A, B], args={}, compile_options={}, modes=[])
+    h.ensure("no-exception", out.returned, bounded_shape=True)
+    if not out.returned:
+        return
+    h.ensure("A-sees-the-outcomes-of-its-own-modes", seen.get("A") == {1: v1, 2: v2, 3: None, 4: None}, bounded_shape=True)
+    h.ensure("B-sees-the-latest-outcome-of-every-mode-it-has", seen.get("B") == {2: v2, 3: v3, 4: None, 5: None}, bounded_shape=True)
+    h.ensure("predecessor-references-untouched", [r.val for r in prev.reg_refs.values()] == [("OLD", 0), v1, v2, None], bounded_shape=True)
+    h.ensure("backend-not-reinitialised-for-a-successor", not any(e[0] == "init" for e in log), bounded_shape=True)
+    order = [e for e in log if e[0] in ("can_follow", "bind", "lock", "run")]
+    h.ensure("each-segment-checked-bound-locked-run-once-in-order",
+             order == [("can_follow", "A", "prev"), ("bind", "A"), ("lock", "A"), ("run", "A"),
+                       ("can_follow", "B", "A"), ("bind", "B"), ("lock", "B"), ("run", "B")], bounded_shape=True)
+    h.ensure("run-history-appended-in-order", [p.name for p in eng.run_progs] == ["prev", "A", "B"], bounded_shape=True)
+    h.ensure("samples-of-the-last-segment-kept", eng.samples == "SAMPLES-B" and eng.samples_dict == {"dict": "B"}, bounded_shape=True)
